@@ -102,7 +102,7 @@ def run(prop, jobs, design_ref, extra_assumptions=(), functions_note="", extra_r
         obligations=cnt["obligations"] - cnt["known"], discharged=cnt["discharged"], obligations_posed=cnt["obligations"],
         known_findings=cnt["known"], undecided=cnt["undecided"],
         violations=cnt["violations"], by_backend=dict(by), solver_time_s=round(solver_t, 2),
-        functions_under_contract=len(fns), contract_cases=cnt["cases"], vacuous_cases=cnt["vacuous_cases"],
+        functions_under_contract=len(fns), functions_by_operation=dict(sorted(Counter(f"{a}.{b}" for a, b, c in fns).items())), contract_cases=cnt["cases"], vacuous_cases=cnt["vacuous_cases"],
         refuter_points=cnt["refuter_points"], engine_crosschecks_against_cpython=cnt["engine_crosschecks"],
         canary="refuted" if can["status"] == "refuted" else can["status"],
         checker_cmd=f"./check {prop} --tier {C.tier()}",
